@@ -113,7 +113,7 @@ PROPS.update({
         technique="generated schedule search over the hand-off windows (E2) plus generated bulk workloads on real sockets (E3), both against a position-keyed stream oracle",
         parts=[
             {"test": "TestVerifC04", "variant": "instr", "chunk": 2500, "quick": {"checks": 1500, "shards": 16}, "thorough": {"checks": 30000, "shards": 16}, "replay_marker": "decisions"},
-            {"test": "TestVerifC04Live", "variant": "plain", "chunk": 0, "crash_is_violation": True, "quick": {"checks": 12, "shards": 8}, "thorough": {"checks": 300, "shards": 12}, "replay_marker": "network"},
+            {"test": "TestVerifC04Live", "variant": "plain", "chunk": 0, "crash_is_violation": True, "shrinktime": "5s", "quick": {"checks": 12, "shards": 8}, "thorough": {"checks": 300, "shards": 12}, "replay_marker": "network"},
         ],
         assumptions=E2_ASSUME + ["E3: interleavings and partial-write boundaries are the OS's choice; a stall is reported only after 30 s without a single byte of progress; a failing scenario is re-run 10 times to state its reproduction rate"]),
     "C17": _e2("TestVerifC17", "Generated adders, bursts, Close position and schedules over the real ShardQueue (its atomics, spin locks and worker task are schedule points); exactly-once and 'flushed without a further Add' are judged at exact quiescence.",
@@ -127,7 +127,7 @@ PROPS.update({
         engine="E2 simworld + E3 livenet",
         parts=[
             {"test": "TestVerifC13", "variant": "instr", "chunk": 2500, "quick": {"checks": 1500, "shards": 16}, "thorough": {"checks": 40000, "shards": 16}, "replay_marker": "decisions"},
-            {"test": "TestVerifC13Live", "variant": "plain", "chunk": 0, "crash_is_violation": True, "quick": {"checks": 8, "shards": 8}, "thorough": {"checks": 150, "shards": 12}, "replay_marker": "deadline_ms"},
+            {"test": "TestVerifC13Live", "variant": "plain", "chunk": 0, "crash_is_violation": True, "shrinktime": "10s", "quick": {"checks": 8, "shards": 8}, "thorough": {"checks": 150, "shards": 12}, "replay_marker": "deadline_ms"},
         ]),
 })
 
